@@ -165,7 +165,7 @@ def viChange (r1 o1 r2 o2 : Int) (lnmode : Bool) : M Nat := do
   let region ← liftO (lbufRegion s r1 (if lnmode then 0 else o1) r2 (if lnmode then -1 else o2))
   regPut s.ybuf region (if lnmode then 1 else 0)
   let pref ← if lnmode then pure (viIndents s (lineOf s r1)) else liftO (subI (lineE s r1) 0 o1)
-  let post ← if lnmode then pure [10] else liftO (subI (lineE s r2) o2 (-1))
+  let post ← if lnmode || (lineOf s r2).isNone then pure [10] else liftO (subI (lineE s r2) o2 (-1))
   setRow r1
   drawfixTop r1 true
   let (rep, row, off) ← viInput pref post
